@@ -167,6 +167,9 @@ def replay(payload):
     seed, hid = inp.get("seed", [0, 0])
     n = len(inp.get("history", [])) or 12
     forms = bool(inp.get("forms", hid >= FORM_HID0))
+    if hid % 5 == 3:          # as in run(): this history ran with the warning-suppression flags set
+        nap.nap_config.suppress_time_index_sorting_warnings = True
+        nap.nap_config.suppress_conversion_warnings = True
     r = H.run_history(nap, seed, hid, inp.get("length") or max(n, 12), 0.6 if forms else 0.5, forms=forms)
     print("history", r["codes"])
     print("reference-form differences:", r["form_diff"])
